@@ -47,6 +47,11 @@ Theorem C04_dispatch : forall kernel op p u,
 Proof. rewrite tie_packed_unpack. exact dispatch_acts_on_unpacked. Qed.
 Print Assumptions C04_dispatch.
 
+(* the hand-modelled parts (PackedTensor.__torch_dispatch__, constructors, quanto:: routing) are the ones
+   p_dispatch / quanto_unpack were written against *)
+Theorem C04_dispatch_source_unchanged : src_packed_prints = packed_prints.
+Proof. exact tie_packed_prints. Qed.
+
 (* non-vacuity: a 5 x 3 tensor of 2-bit values (tail block shorter than the others) meets the
    hypotheses, and the generated code really round-trips it *)
 Definition ex_t : tensor Z := T [5; 3] [0; 1; 2; 3; 0; 1; 3; 3; 3; 2; 1; 0; 1; 1; 2].
